@@ -128,11 +128,39 @@ def parseSrc (srcty : String) (data : Option Bytes) : Option Src :=
   | "string", none => none
   | t, _ => some (.other t)
 
+/-- `flip:<n>` counts bits from the start, `flip:e<k>` from the last bit of the stored value -/
+def flipIndex (i : String) (len : Nat) : Option Nat :=
+  if i.startsWith "e" then
+    ((i.drop 1).toString.toNat?).bind fun k => if k < 8 * len then some (8 * len - 1 - k) else none
+  else i.toNat?
+
+/-- "val,valid,class" of the real `Scan` of a `Value()` output into a fresh column -/
+def parseFresh (s : String) : Option (String × String × String) :=
+  match s.splitOn "," with
+  | [v, b, c] => some (v, b, c)
+  | _ => none
+
+/-- `Scan(Value(x))` restores `x` with `Valid = true`: judged on every successful `Value()` by the REAL
+`Scan` of its output into a fresh zero column of the same type and key (`fs=`), so it depends neither on
+the receiver's prior state (json.Unmarshal merges) nor on the harness's own decoding of the output.
+For types serialised with encoding/json it is demanded when `x` is JSON-representable, i.e. when
+encoding/json's own Marshal-then-Unmarshal into a fresh value gives `x` back (`self=`). -/
+def freshRoundTrip (obs curVal : String) (jsonTy : Bool) : Option String :=
+  match (field obs "fs").bind parseFresh with
+  | none => some "bad-observation: Value() succeeded but the line has no fs= field"
+  | some (v, b, c) =>
+    let representable : Bool := !jsonTy || field obs "self" == some (curVal ++ ",1")
+    if !representable then none
+    else if c ≠ "ok" then some s!"Scan(Value(x)) into a fresh column must succeed, got {c}"
+    else if v ≠ curVal then some s!"Scan(Value(x)) into a fresh column must restore x = {curVal}, got {v}"
+    else if b ≠ "1" then some "Scan(Value(x)) into a fresh column must set Valid = true"
+    else none
+
 /-- does `data` relate to the stored value the way the op says? (consistency of the harness) -/
 def srcSpecOk (spec : String) (stored : Option Bytes) (data : Bytes) (openObs : Option (Option Bytes)) : Bool :=
   match spec.splitOn ":", stored with
   | ["stored"], some ct => data == ct
-  | ["flip", i], some ct => (i.toNat?.map fun n => data == flipBit ct n) == some true
+  | ["flip", i], some ct => ((flipIndex i ct.length).map fun n => data == flipBit ct n) == some true
   | ["trunc", n], some ct => (n.toNat?.map fun k => data == ct.take k) == some true
   | ["app", h], some ct => ((parseHex h).map fun x => data == ct ++ x) == some true
   | ["pt", p, n], _ =>
@@ -238,7 +266,7 @@ def checker (model : Bool) : Checker where
                   else if ct.length < nonceSize then (some (store ct), some "value: output shorter than a nonce")
                   else if ct' ≠ ct then
                     (some (store ct), some s!"value: output is not nonce ++ seal(key, nonce, serialise(val)); plaintext want {wantPt} got {(field obs "pt").getD "?"}")
-                  else (some (store ct), none)
+                  else (some (store ct), freshRoundTrip obs curVal (s.arm == .other))
                 | o => (some (store ct), some s!"value result want {outClass o} got ok")
               | _, _ =>
                 let a := pointAEAD [] [] [] none
@@ -251,7 +279,7 @@ def checker (model : Bool) : Checker where
                 (if cls.startsWith "err" then (some resync, none) else (some resync, some s!"Value() of an invalid column / bad key length must fail, got {rt}"))
               else if cls == "panic" then (some resync, some "panic")
               else match cls, ctO with
-                | "ok", some ct => (some (store ct), none)
+                | "ok", some ct => (some (store ct), freshRoundTrip obs curVal (s.arm == .other))
                 | _, _ => if s.arm == .other && cls.startsWith "err" then (some resync, none)
                           else (some resync, some s!"Value() of a valid column must succeed, got {rt}")
           else
@@ -267,12 +295,16 @@ def checker (model : Bool) : Checker where
             else if model then
               let c := pointCodec curVal jsonObs none
               match JCol.value c s.jcol, got with
-              | .ok w, some g => if w = g then (some store, none) else (some store, some s!"json value want {(w.map renderHex).getD "null"} got {rt}")
+              | .ok w, some g =>
+                if w = g then (some store, if g.isSome then freshRoundTrip obs curVal true else none) else (some store, some s!"json value want {(w.map renderHex).getD "null"} got {rt}")
               | o, _ => if outClass o = cls ∧ !rt.startsWith "ok" then (some store, none) else (some store, some s!"json value want {outClass o} got {rt}")
             else
               if !s.jcol.valid then
                 (if rt = "ok:null" then (some store, none) else (some store, some s!"an invalid JsonColumn must yield SQL NULL, got {rt}"))
-              else if cls == "panic" then (some store, some "panic") else (some store, none)
+              else if cls == "panic" then (some store, some "panic")
+              else match got with
+                | some (some _) => (some store, freshRoundTrip obs curVal true)
+                | _ => (some store, none)
         | ["value2"] =>
           if cls ≠ "ok" then
             -- same demands as a single Value()
